@@ -235,16 +235,28 @@ bool File::copy(const String& src, const String& destination, bool failIfExists)
       return false;
     if(lseek(fd, 0, SEEK_SET) < 0)
       return false;
-    int dest = ::open(destination, failIfExists ? (O_CREAT | O_EXCL | O_CLOEXEC | O_TRUNC | O_WRONLY) : (O_CREAT | O_CLOEXEC | O_TRUNC | O_WRONLY), S_IRUSR | S_IWUSR | S_IRGRP | S_IROTH);
+    bool created = true; // try to create the destination first, so that a failed copy can tell whether the file is ours to remove
+    int dest = ::open(destination, O_CREAT | O_EXCL | O_CLOEXEC | O_TRUNC | O_WRONLY, S_IRUSR | S_IWUSR | S_IRGRP | S_IROTH);
+    if(dest == -1 && !failIfExists && errno == EEXIST)
+    {
+      created = false;
+      dest = ::open(destination, O_CREAT | O_CLOEXEC | O_TRUNC | O_WRONLY, S_IRUSR | S_IWUSR | S_IRGRP | S_IROTH);
+    }
     if(dest == -1)
     {
+      int err = errno;
       ::close(fd);
+      errno = err;
       return false;
     }
     if(sendfile(dest, fd, 0, size) != size)
     {
+      int err = errno;
       ::close(fd);
       ::close(dest);
+      if(created)
+        ::unlink(destination); // do not leave a partial new file behind
+      errno = err;
       return false;
     }
     ::close(fd);
